@@ -7,6 +7,7 @@ over loopback TCP after a real handshake, with real partial writes forced by
 minimal socket buffers; recorded traces are validated by TLC."""
 import json, os, random
 import vlib
+from checks import wsval
 
 LEVEL = "model_checking"
 
@@ -27,7 +28,7 @@ def _validate(ck, sw, name, beh, label, comp, mode, seed, confirm=False):
     trouble = (summ.get("notes") or {}).get("harness_trouble") if summ else None
     if trouble:
         raise vlib.Inconclusive("%s: the real-socket driver could not observe reliably: %s" % (label, trouble[:3]))
-    bads, _ = vlib.validate_trace(sw, "WsSessionMonTrace", "WsSessionMonTrace.cfg", trace, parallel=PAR)
+    bads = wsval.validate(sw, trace, PAR)
     ck.cov["evaluations"] += summ["scenarios"]
     ck.cov["distinct_nontrivial"] += summ["nontrivial"]
     ck.cov["traces_validated_against_impl"] += summ["scenarios"] - len({b[0] for b in bads})
@@ -47,7 +48,7 @@ def _validate(ck, sw, name, beh, label, comp, mode, seed, confirm=False):
                 t2 = os.path.join(ck.work, "confirm_%d.ndjson" % k)
                 vlib.run_replay([comp, "-in", one, "-out", t2, "-seed", str(seed),
                                  "-mode", mode + ",sidbase=%d,budget=%d" % (sid - 1, 4000 * 2 ** k)], timeout=600)
-                b2, _ = vlib.validate_trace(sw, "WsSessionMonTrace", "WsSessionMonTrace.cfg", t2, parallel=1)
+                b2 = wsval.validate(sw, t2, 1)
                 if not b2 or b2[0][2] != key:
                     raise vlib.Inconclusive("%s: '%s' of scenario %d did not recur on re-execution %d" % (label, key, sid, k + 1))
             confirmed.add(key)
